@@ -2,8 +2,828 @@ package c10
 
 import (
 	"context"
+	"errors"
+	"fmt"
+	"io"
+	"sort"
+	"strings"
+	"time"
 
+	"github.com/cloudwego/eino/callbacks"
+	"github.com/cloudwego/eino/components/model"
+	"github.com/cloudwego/eino/components/prompt"
+	"github.com/cloudwego/eino/components/retriever"
+	"github.com/cloudwego/eino/compose"
+	"github.com/cloudwego/eino/schema"
+
+	"verifharness/internal/gspec"
 	"verifharness/internal/mon"
 )
 
-func selfFireCase(ctx context.Context, rep *mon.Reporter, rng *mon.Rand, sample bool) {}
+// ---------------------------------------------------------------------------------------------
+// The self-firing workload: component nodes that fire their callbacks themselves
+// (components.Checker, IsCallbacksEnabled() == true) next to nodes whose callbacks the framework injects.
+//
+//   lanes      1-3 side by side, each "ChatTemplate -> ChatModel -> Lambda" (one or two rounds) or
+//              "Lambda -> Retriever -> Lambda", in the top graph or inside a graph nested 1-2 deep;
+//              Graph (both trigger modes) / Chain / Workflow on every level; four paradigms
+//   bundled    prompt.FromMessages(FString | GoTemplate, 1-4 MessagesTemplates): schema messages,
+//              placeholders and own MessagesTemplate implementations; at most one of them fails: an own
+//              template returns an error or panics (string / error / nil dereference), a message names a
+//              variable that is not there, a required placeholder is absent
+//   own        ChatTemplate / ChatModel / Retriever implementations and Lambdas, either with a Checker
+//              saying true (they fire OnStart / OnEnd / OnError themselves and do it well: that is their
+//              author's duty, the pairs are counted and the framework must not fire a second time) or
+//              without (framework-injected; these may return an error or panic as well)
+//
+// Oracle (after the process has settled), per handler and unit: one lane, or no failure: the exact
+// table - every unit before the failing one once with OnEnd, the failing unit and the graphs around it
+// once with OnError and no OnEnd, everything behind it never. Several lanes and a failure: the failing
+// lane as above; the other lanes may have been abandoned anywhere: at most one start, #end + #error =
+// #start. A designated handler fires for its units only; every event carries the unit's component.
+// ---------------------------------------------------------------------------------------------
+
+type sfComp struct {
+	Key  string `json:"key"`
+	Role string `json:"role"` // template | model | lambda | retriever
+	// Impl: bundled (template only: prompt.DefaultChatTemplate) | self (own, fires its callbacks itself) |
+	// plain (own, the framework injects them)
+	Impl      string   `json:"impl"`
+	Format    string   `json:"format,omitempty"`    // bundled: fstring | gotemplate
+	Templates []string `json:"templates,omitempty"` // bundled: the MessagesTemplates in order
+	Do        string   `json:"do"`                  // ok | error | panic-string | panic-error | panic-nil-deref (what the unit does)
+	stage     int      // position in the lane's pipeline (types)
+}
+
+type sfLane struct {
+	Key   string   `json:"key"`
+	Type  string   `json:"type"` // chat | retrieve
+	Comps []sfComp `json:"components"`
+	Nest  []string `json:"nested_in,omitempty"` // kinds of the graphs around the lane, outermost first (0-2)
+}
+
+type sfSpec struct {
+	Kind  string   `json:"kind"` // graph-dag | graph-pregel | chain | workflow
+	Lanes []sfLane `json:"lanes"`
+}
+
+var errSelfFire = errors.New("verif-component-failure")
+
+func sfFail(do, who string) error {
+	switch do {
+	case "error":
+		return fmt.Errorf("%s: %w", who, errSelfFire)
+	case "panic-string":
+		panic("verif-component-panic@" + who)
+	case "panic-error":
+		panic(fmt.Errorf("verif-component-panic@%s: %w", who, errSelfFire))
+	case "panic-nil-deref":
+		var p *sfComp
+		_ = p.Key
+	}
+	return nil
+}
+
+// ---- own MessagesTemplate
+type sfMsgTemplate struct{ do, who string }
+
+func (t sfMsgTemplate) Format(_ context.Context, vs map[string]any, _ schema.FormatType) ([]*schema.Message, error) {
+	if err := sfFail(t.do, t.who); err != nil {
+		return nil, err
+	}
+	return []*schema.Message{schema.UserMessage(fmt.Sprintf("own template of %s sees %d variables", t.who, len(vs)))}, nil
+}
+
+// ---- own ChatTemplate
+type sfTemplate struct {
+	self    bool
+	do, who string
+}
+
+func (t *sfTemplate) IsCallbacksEnabled() bool { return t.self }
+func (t *sfTemplate) GetType() string          { return "VerifOwn" }
+
+func (t *sfTemplate) Format(ctx context.Context, vs map[string]any, _ ...prompt.Option) ([]*schema.Message, error) {
+	if t.self {
+		ctx = callbacks.OnStart(ctx, vs)
+	}
+	if err := sfFail(t.do, t.who); err != nil {
+		if t.self {
+			callbacks.OnError(ctx, err)
+		}
+		return nil, err
+	}
+	out := []*schema.Message{schema.UserMessage(fmt.Sprint(vs["name"]))}
+	if t.self {
+		callbacks.OnEnd(ctx, out)
+	}
+	return out, nil
+}
+
+// plain variants must not have the Checker method at all in one flavour: a type without it
+type sfTemplateNoChecker struct{ do, who string }
+
+func (t *sfTemplateNoChecker) Format(ctx context.Context, vs map[string]any, _ ...prompt.Option) ([]*schema.Message, error) {
+	if err := sfFail(t.do, t.who); err != nil {
+		return nil, err
+	}
+	return []*schema.Message{schema.UserMessage(fmt.Sprint(vs["name"]))}, nil
+}
+
+// ---- own ChatModel
+type sfModel struct {
+	self    bool
+	do, who string
+}
+
+func (m *sfModel) IsCallbacksEnabled() bool { return m.self }
+
+func (m *sfModel) Generate(ctx context.Context, in []*schema.Message, _ ...model.Option) (*schema.Message, error) {
+	if m.self {
+		ctx = callbacks.OnStart(ctx, in)
+	}
+	if err := sfFail(m.do, m.who); err != nil {
+		if m.self {
+			callbacks.OnError(ctx, err)
+		}
+		return nil, err
+	}
+	out := schema.AssistantMessage(fmt.Sprintf("%s answers %d messages", m.who, len(in)), nil)
+	if m.self {
+		callbacks.OnEnd(ctx, out)
+	}
+	return out, nil
+}
+
+func (m *sfModel) Stream(ctx context.Context, in []*schema.Message, _ ...model.Option) (*schema.StreamReader[*schema.Message], error) {
+	if m.self {
+		ctx = callbacks.OnStart(ctx, in)
+	}
+	if err := sfFail(m.do, m.who); err != nil {
+		if m.self {
+			callbacks.OnError(ctx, err)
+		}
+		return nil, err
+	}
+	sr := schema.StreamReaderFromArray([]*schema.Message{
+		schema.AssistantMessage(m.who+" answers ", nil), schema.AssistantMessage(fmt.Sprintf("%d messages", len(in)), nil)})
+	if m.self {
+		_, sr = callbacks.OnEndWithStreamOutput(ctx, sr)
+	}
+	return sr, nil
+}
+
+func (m *sfModel) BindTools([]*schema.ToolInfo) error { return nil }
+
+// ---- own Retriever
+type sfRetriever struct {
+	self    bool
+	do, who string
+}
+
+func (r *sfRetriever) IsCallbacksEnabled() bool { return r.self }
+
+func (r *sfRetriever) Retrieve(ctx context.Context, q string, _ ...retriever.Option) ([]*schema.Document, error) {
+	if r.self {
+		ctx = callbacks.OnStart(ctx, q)
+	}
+	if err := sfFail(r.do, r.who); err != nil {
+		if r.self {
+			callbacks.OnError(ctx, err)
+		}
+		return nil, err
+	}
+	out := []*schema.Document{{ID: "d1", Content: q}, {ID: "d2", Content: r.who}}
+	if r.self {
+		callbacks.OnEnd(ctx, out)
+	}
+	return out, nil
+}
+
+// sfLambdaOf: a Lambda I -> O; self: created with WithLambdaCallbackEnable(true), fires its callbacks itself
+func sfLambdaOf[I, O any](c *sfComp, f func(I) O) *compose.Lambda {
+	self, do, who := c.Impl == "self", c.Do, c.Key
+	return compose.InvokableLambda(func(ctx context.Context, in I) (O, error) {
+		var zero O
+		if self {
+			ctx = callbacks.OnStart(ctx, in)
+		}
+		if err := sfFail(do, who); err != nil {
+			if self {
+				callbacks.OnError(ctx, err)
+			}
+			return zero, err
+		}
+		out := f(in)
+		if self {
+			callbacks.OnEnd(ctx, out)
+		}
+		return out, nil
+	}, compose.WithLambdaCallbackEnable(self))
+}
+
+// ------------------------------------------------------------------ generation
+
+var sfGoodTemplates = []string{"user-message", "system-message", "optional-placeholder", "own-ok"}
+var sfBadTemplates = []string{"own-error", "own-error", "own-panic-string", "own-panic-error", "own-panic-nil-deref", "own-panic-string", "message-with-unknown-variable", "required-placeholder-absent"}
+
+func sfTemplateDo(kind string) string {
+	switch kind {
+	case "own-panic-string", "own-panic-error", "own-panic-nil-deref":
+		return strings.TrimPrefix(kind, "own-")
+	case "own-error", "message-with-unknown-variable", "required-placeholder-absent":
+		return "error"
+	}
+	return "ok"
+}
+
+func sfGen(rng *mon.Rand) *sfSpec {
+	spec := &sfSpec{Kind: mon.PickOne(rng, []string{"graph-dag", "graph-pregel", "chain", "workflow"})}
+	nl := 1 + rng.Intn(3)
+	if spec.Kind == "graph-pregel" {
+		nl = 1 // any-predecessor: END would fire with the first lane that arrives
+	}
+	nodes := 0
+	comp := func(role string, stage int) sfComp {
+		nodes++
+		c := sfComp{Key: fmt.Sprintf("c%d", nodes), Role: role, Do: "ok", stage: stage}
+		c.Impl = mon.PickOne(rng, []string{"self", "plain"})
+		if role == "template" {
+			c.Impl = mon.PickOne(rng, []string{"bundled", "bundled", "self", "plain", "plain-no-checker"})
+		}
+		if c.Impl == "bundled" {
+			c.Format = mon.PickOne(rng, []string{"fstring", "gotemplate"})
+			for i, n := 0, 1+rng.Intn(4); i < n; i++ {
+				c.Templates = append(c.Templates, mon.PickOne(rng, sfGoodTemplates))
+			}
+		}
+		return c
+	}
+	for l := 0; l < nl; l++ {
+		lane := sfLane{Key: fmt.Sprintf("L%d", l), Type: "chat"}
+		if rng.Prob(0.3) {
+			lane.Type = "retrieve"
+			lane.Comps = []sfComp{comp("lambda", 10), comp("retriever", 11), comp("lambda", 12)}
+		} else {
+			for r, rounds := 0, 1+rng.Intn(2); r < rounds; r++ {
+				lane.Comps = append(lane.Comps, comp("template", 0), comp("model", 1), comp("lambda", 2))
+			}
+		}
+		for d, depth := 0, rng.Intn(3); d < depth; d++ {
+			lane.Nest = append(lane.Nest, mon.PickOne(rng, []string{"graph-dag", "graph-pregel", "chain", "workflow"}))
+		}
+		if spec.Kind == "chain" && nl > 1 && len(lane.Nest) == 0 {
+			lane.Nest = []string{mon.PickOne(rng, []string{"graph-dag", "chain", "workflow"})} // a Parallel holds one node per lane
+		}
+		spec.Lanes = append(spec.Lanes, lane)
+	}
+	// at most one unit fails
+	if rng.Prob(0.7) {
+		lane := &spec.Lanes[rng.Intn(nl)]
+		// bundled templates first in line
+		var bundled []int
+		for i, c := range lane.Comps {
+			if c.Impl == "bundled" {
+				bundled = append(bundled, i)
+			}
+		}
+		i := rng.Intn(len(lane.Comps))
+		if len(bundled) > 0 && rng.Prob(0.7) {
+			i = bundled[rng.Intn(len(bundled))]
+		}
+		c := &lane.Comps[i]
+		switch c.Impl {
+		case "bundled":
+			bad := mon.PickOne(rng, sfBadTemplates)
+			c.Templates[rng.Intn(len(c.Templates))] = bad
+			c.Do = sfTemplateDo(bad)
+		case "self":
+			c.Do = "error" // it behaves well: fires OnError itself
+		default:
+			c.Do = mon.PickOne(rng, []string{"error", "panic-string", "panic-error", "panic-nil-deref"})
+		}
+	}
+	return spec
+}
+
+// ------------------------------------------------------------------ building
+
+type sfNode struct {
+	key  string
+	tpl  prompt.ChatTemplate
+	mdl  model.BaseChatModel
+	lam  *compose.Lambda
+	ret  retriever.Retriever
+	sub  compose.AnyGraph
+	opts []compose.GraphAddNodeOpt
+}
+
+func sfNodeOf(c *sfComp) sfNode {
+	n := sfNode{key: c.Key, opts: []compose.GraphAddNodeOpt{compose.WithNodeName(c.Key)}}
+	switch c.Role {
+	case "template":
+		switch c.Impl {
+		case "bundled":
+			ft := schema.FString
+			name, role, absent := "hello {name}", "you are {role}", "about {absent_variable}"
+			if c.Format == "gotemplate" {
+				ft = schema.GoTemplate
+				name, role, absent = "hello {{.name}}", "you are {{.role}}", "about {{.absent_variable}}"
+			}
+			var ts []schema.MessagesTemplate
+			for i, k := range c.Templates {
+				who := fmt.Sprintf("%s[%d]", c.Key, i)
+				switch k {
+				case "user-message":
+					ts = append(ts, schema.UserMessage(name))
+				case "system-message":
+					ts = append(ts, schema.SystemMessage(role))
+				case "optional-placeholder":
+					ts = append(ts, schema.MessagesPlaceholder("history", true))
+				case "message-with-unknown-variable":
+					ts = append(ts, schema.UserMessage(absent))
+				case "required-placeholder-absent":
+					ts = append(ts, schema.MessagesPlaceholder("history", false))
+				default:
+					ts = append(ts, sfMsgTemplate{do: sfTemplateDo(k), who: who})
+				}
+			}
+			n.tpl = prompt.FromMessages(ft, ts...)
+		case "plain-no-checker":
+			n.tpl = &sfTemplateNoChecker{do: c.Do, who: c.Key}
+		default:
+			n.tpl = &sfTemplate{self: c.Impl == "self", do: c.Do, who: c.Key}
+		}
+	case "model":
+		n.mdl = &sfModel{self: c.Impl == "self", do: c.Do, who: c.Key}
+	case "retriever":
+		n.ret = &sfRetriever{self: c.Impl == "self", do: c.Do, who: c.Key}
+	default:
+		switch c.stage {
+		case 2:
+			n.lam = sfLambdaOf(c, func(m *schema.Message) map[string]any {
+				return map[string]any{"name": m.Content, "role": "a helper"}
+			})
+		case 10:
+			n.lam = sfLambdaOf(c, func(vs map[string]any) string { return fmt.Sprint(vs["name"]) })
+		default:
+			n.lam = sfLambdaOf(c, func(ds []*schema.Document) map[string]any {
+				return map[string]any{"name": fmt.Sprintf("%d documents", len(ds)), "role": "a librarian"}
+			})
+		}
+	}
+	return n
+}
+
+type sfM = map[string]any
+
+type sfCompiler func(ctx context.Context, opts ...compose.GraphCompileOption) (compose.Runnable[sfM, sfM], error)
+
+func sfTrigger(kind string) []compose.GraphCompileOption {
+	switch kind {
+	case "graph-dag":
+		return []compose.GraphCompileOption{compose.WithNodeTriggerMode(compose.AllPredecessor)}
+	case "graph-pregel":
+		return []compose.GraphCompileOption{compose.WithNodeTriggerMode(compose.AnyPredecessor)}
+	}
+	return nil
+}
+
+// sfContainer: lanes of nodes side by side in a graph of the given kind, every lane from START to END;
+// wrap: the lane's output goes to END under the lane's key (the top level; a nested level holds one lane
+// and hands its output on as it is)
+func sfContainer(kind string, keys []string, lanes [][]sfNode, wrap bool) (compose.AnyGraph, sfCompiler, error) {
+	switch kind {
+	case "chain":
+		c := compose.NewChain[sfM, sfM]()
+		add := func(n sfNode, extra ...compose.GraphAddNodeOpt) {
+			opts := append(append([]compose.GraphAddNodeOpt{compose.WithNodeKey(n.key)}, n.opts...), extra...)
+			switch {
+			case n.tpl != nil:
+				c.AppendChatTemplate(n.tpl, opts...)
+			case n.mdl != nil:
+				c.AppendChatModel(n.mdl, opts...)
+			case n.ret != nil:
+				c.AppendRetriever(n.ret, opts...)
+			case n.sub != nil:
+				c.AppendGraph(n.sub, opts...)
+			default:
+				c.AppendLambda(n.lam, opts...)
+			}
+		}
+		if len(lanes) == 1 {
+			for i, n := range lanes[0] {
+				if wrap && i == len(lanes[0])-1 {
+					add(n, compose.WithOutputKey(keys[0]))
+				} else {
+					add(n)
+				}
+			}
+			return c, c.Compile, nil
+		}
+		p := compose.NewParallel()
+		for l, lane := range lanes {
+			if len(lane) != 1 || lane[0].sub == nil {
+				return nil, nil, errors.New("verif: a lane of a chain with several lanes is one nested graph")
+			}
+			p.AddGraph(keys[l], lane[0].sub, append([]compose.GraphAddNodeOpt{compose.WithNodeKey(lane[0].key)}, lane[0].opts...)...)
+		}
+		c.AppendParallel(p)
+		return c, c.Compile, nil
+	case "workflow":
+		wf := compose.NewWorkflow[sfM, sfM]()
+		for l, lane := range lanes {
+			prev := compose.START
+			for _, n := range lane {
+				var wn *compose.WorkflowNode
+				switch {
+				case n.tpl != nil:
+					wn = wf.AddChatTemplateNode(n.key, n.tpl, n.opts...)
+				case n.mdl != nil:
+					wn = wf.AddChatModelNode(n.key, n.mdl, n.opts...)
+				case n.ret != nil:
+					wn = wf.AddRetrieverNode(n.key, n.ret, n.opts...)
+				case n.sub != nil:
+					wn = wf.AddGraphNode(n.key, n.sub, n.opts...)
+				default:
+					wn = wf.AddLambdaNode(n.key, n.lam, n.opts...)
+				}
+				wn.AddInput(prev)
+				prev = n.key
+			}
+			if wrap {
+				wf.End().AddInput(prev, compose.ToField(keys[l]))
+			} else {
+				wf.End().AddInput(prev)
+			}
+		}
+		return wf, wf.Compile, nil
+	}
+	g := compose.NewGraph[sfM, sfM]()
+	for l, lane := range lanes {
+		prev := compose.START
+		for i, n := range lane {
+			opts := n.opts
+			if wrap && i == len(lane)-1 {
+				opts = append(append([]compose.GraphAddNodeOpt(nil), opts...), compose.WithOutputKey(keys[l]))
+			}
+			var err error
+			switch {
+			case n.tpl != nil:
+				err = g.AddChatTemplateNode(n.key, n.tpl, opts...)
+			case n.mdl != nil:
+				err = g.AddChatModelNode(n.key, n.mdl, opts...)
+			case n.ret != nil:
+				err = g.AddRetrieverNode(n.key, n.ret, opts...)
+			case n.sub != nil:
+				err = g.AddGraphNode(n.key, n.sub, opts...)
+			default:
+				err = g.AddLambdaNode(n.key, n.lam, opts...)
+			}
+			if err == nil {
+				err = g.AddEdge(prev, n.key)
+			}
+			if err != nil {
+				return nil, nil, err
+			}
+			prev = n.key
+		}
+		if err := g.AddEdge(prev, compose.END); err != nil {
+			return nil, nil, err
+		}
+	}
+	return g, g.Compile, nil
+}
+
+type sfUnit struct {
+	name string
+	comp string
+	path []string
+	lane int // -1: TOP
+	pos  int // position in the lane: the graphs around it first (outermost = 0), then its components
+	kind string
+	do   string
+}
+
+func sfGraphComp(kind string) string {
+	switch kind {
+	case "chain":
+		return "Chain"
+	case "workflow":
+		return "Workflow"
+	}
+	return "Graph"
+}
+
+func sfBuild(ctx context.Context, spec *sfSpec) (compose.Runnable[sfM, sfM], []sfUnit, error) {
+	us := []sfUnit{{name: "TOP", comp: sfGraphComp(spec.Kind), lane: -1, kind: "graph"}}
+	var keys []string
+	var lanes [][]sfNode
+	for l := range spec.Lanes {
+		lane := &spec.Lanes[l]
+		var prefix []string
+		for d := range lane.Nest {
+			k := fmt.Sprintf("%sg%d", lane.Key, d)
+			prefix = append(prefix, k)
+			us = append(us, sfUnit{name: k, comp: sfGraphComp(lane.Nest[d]), path: append([]string(nil), prefix...), lane: l, pos: d, kind: "nested-graph"})
+		}
+		var nodes []sfNode
+		for i := range lane.Comps {
+			c := &lane.Comps[i]
+			nodes = append(nodes, sfNodeOf(c))
+			comp := map[string]string{"template": "ChatTemplate", "model": "ChatModel", "retriever": "Retriever", "lambda": "Lambda"}[c.Role]
+			kind := "framework-injected/" + comp
+			switch c.Impl {
+			case "bundled":
+				kind = "bundled-ChatTemplate"
+			case "self":
+				kind = "component-fires-itself/" + comp
+			}
+			us = append(us, sfUnit{name: c.Key, comp: comp, path: append(append([]string(nil), prefix...), c.Key), lane: l, pos: len(lane.Nest) + i, kind: kind, do: c.Do})
+		}
+		for d := len(lane.Nest) - 1; d >= 0; d-- {
+			inner, _, err := sfContainer(lane.Nest[d], []string{lane.Key}, [][]sfNode{nodes}, false)
+			if err != nil {
+				return nil, nil, err
+			}
+			k := fmt.Sprintf("%sg%d", lane.Key, d)
+			n := sfNode{key: k, sub: inner, opts: []compose.GraphAddNodeOpt{compose.WithNodeName(k)}}
+			if co := sfTrigger(lane.Nest[d]); co != nil {
+				n.opts = append(n.opts, compose.WithGraphCompileOptions(co...))
+			}
+			nodes = []sfNode{n}
+		}
+		keys = append(keys, lane.Key)
+		lanes = append(lanes, nodes)
+	}
+	_, compile, err := sfContainer(spec.Kind, keys, lanes, true)
+	if err != nil {
+		return nil, nil, err
+	}
+	r, err := compile(ctx, append(sfTrigger(spec.Kind), compose.WithGraphName("TOP"))...)
+	return r, us, err
+}
+
+// ------------------------------------------------------------------ running
+
+func sfCall(ctx context.Context, r compose.Runnable[sfM, sfM], para string, opts ...compose.Option) (o rlOutcome, res mon.WaitResult, dump []mon.G) {
+	vars := func() sfM { return sfM{"name": "eino", "role": "a tester"} }
+	in := func() *schema.StreamReader[sfM] {
+		return schema.StreamReaderFromArray([]sfM{{"name": "eino"}, {"role": "a tester"}})
+	}
+	read := func(sr *schema.StreamReader[sfM], err error) error {
+		if err != nil {
+			return err
+		}
+		defer sr.Close()
+		for {
+			if _, err := sr.Recv(); err == io.EOF {
+				return nil
+			} else if err != nil {
+				return err
+			}
+		}
+	}
+	done := make(chan struct{})
+	go func() {
+		defer close(done)
+		o.Panic = mon.Safe(func() {
+			switch para {
+			case "I":
+				_, o.Err = r.Invoke(ctx, vars(), opts...)
+			case "S":
+				o.Err = read(r.Stream(ctx, vars(), opts...))
+			case "C":
+				_, o.Err = r.Collect(ctx, in(), opts...)
+			default:
+				o.Err = read(r.Transform(ctx, in(), opts...))
+			}
+		})
+	}()
+	res, dump = mon.WaitDone(done, 120*time.Second)
+	if res != mon.Finished {
+		return rlOutcome{}, res, dump
+	}
+	return o, res, nil
+}
+
+func selfFireCase(ctx context.Context, rep *mon.Reporter, rng *mon.Rand, sample bool) {
+	spec := sfGen(rng)
+	r, us, err := sfBuild(ctx, spec)
+	if err != nil {
+		rep.Violation(ID+"/selffire/build-error", err.Error(), spec)
+		return
+	}
+	rep.Count("selffire_specs", 1)
+	rep.Count("selffire_specs_"+spec.Kind, 1)
+	for _, para := range []string{"I", "S", "C", "T"} {
+		sfRun(ctx, rep, rng.Sub(para), spec, r, us, para)
+	}
+	if sample {
+		rep.Sample(map[string]any{"workload": "selffire", "spec": spec})
+	}
+}
+
+func sfRun(ctx context.Context, rep *mon.Reporter, rng *mon.Rand, spec *sfSpec, r compose.Runnable[sfM, sfM], us []sfUnit, para string) {
+	// the failing unit, if any
+	var bad *sfUnit
+	for i := range us {
+		if us[i].do != "" && us[i].do != "ok" {
+			bad = &us[i]
+		}
+	}
+	fclass := "none"
+	if bad != nil {
+		fclass = "error"
+		if strings.HasPrefix(bad.do, "panic") {
+			fclass = "panic"
+		}
+	}
+	// ---- handlers
+	rec := &recorder{}
+	hs := []hspec{{ID: "U0", Mode: readAll}, {ID: "U1", Mode: readMode(rng.Intn(3))}}
+	if bad != nil && rng.Prob(0.6) {
+		hs = append(hs, hspec{ID: "D@failing", Path: bad.path, Mode: readMode(rng.Intn(3))})
+		if len(bad.path) > 1 && rng.Bool() {
+			hs = append(hs, hspec{ID: "D@around", Path: bad.path[:1+rng.Intn(len(bad.path)-1)], Mode: readMode(rng.Intn(3))})
+		}
+	}
+	for i, n := 0, rng.Intn(3); i < n; i++ {
+		u := us[1+rng.Intn(len(us)-1)]
+		hs = append(hs, hspec{ID: fmt.Sprintf("D%d@%s", i, strings.Join(u.path, "/")), Path: u.path, Mode: readMode(rng.Intn(3))})
+	}
+	var opts []compose.Option
+	for _, h := range hs {
+		o := compose.WithCallbacks(newHandler(h.ID, rec, h.Mode))
+		if h.Path != nil {
+			o = o.DesignateNodeWithPath(compose.NewNodePath(h.Path...))
+		}
+		opts = append(opts, o)
+	}
+	cctx := context.WithValue(ctx, recKey{}, rec)
+	out, wres, dump := sfCall(cctx, r, para, opts...)
+	rep.AddEvaluations(1)
+	rep.Count("selffire_runs", 1)
+	rep.Count("selffire_runs_"+para, 1)
+	wit := map[string]any{"spec": spec, "paradigm": para, "handlers": hs}
+	tail := fclass
+	if bad != nil {
+		tail = fclass + "/" + bad.kind
+	}
+	if wres == mon.Stuck {
+		where, detail := gspec.StuckSignature(dump)
+		rep.Violation(ID+"/selffire/hang/"+tail+"/"+where, detail, wit)
+		return
+	}
+	if wres != mon.Finished {
+		rep.Inconclusive("watchdog")
+		return
+	}
+	if _, ok := mon.Settle(3, 800); !ok {
+		rep.Count("selffire_runs_not_settled_not_judged", 1)
+		return
+	}
+	rec.wg.Wait()
+	failed := out.Err != nil || out.Panic != nil
+	if bad == nil && failed {
+		rep.Violation(ID+"/selffire/success/run-failed", fmt.Sprintf("a run in which no unit fails failed: err=%v panic=%v", out.Err, out.Panic), wit)
+		return
+	}
+	if bad != nil && !failed {
+		rep.Count("selffire_failing_runs_that_succeeded_not_judged", 1) // whether the failure must surface is C13's business
+		return
+	}
+	rec.mu.Lock()
+	evs := append([]event(nil), rec.events...)
+	rec.mu.Unlock()
+	rep.Count("callback_events", int64(len(evs)))
+	var b strings.Builder
+	for _, e := range evs {
+		fmt.Fprintf(&b, "  %d %s %s name=%s comp=%s stream=%v\n", e.seq, e.handler, e.timing, e.name, e.comp, e.stream)
+	}
+	outcome := fmt.Sprintf("err=%.300v", out.Err)
+	if out.Panic != nil {
+		outcome = "the call panicked: " + out.Panic.Value
+	}
+	head := fmt.Sprintf("paradigm %s, failing unit: %+v\nrun: %s\nhandlers: %+v\n", para, bad, outcome, hs)
+	byName := map[string]*sfUnit{}
+	for i := range us {
+		byName[us[i].name] = &us[i]
+	}
+	below := func(p []string) map[string]bool {
+		m := map[string]bool{}
+		for _, u := range us {
+			if len(u.path) >= len(p) && len(p) > 0 && related(u.path, p) {
+				m[u.name] = true
+			}
+		}
+		return m
+	}
+	// what the table says about a unit: start, end, error; exact == false: an upper bound with pairing
+	expect := func(u *sfUnit) (s, e, x int, exact bool) {
+		if bad == nil {
+			return 1, 1, 0, true
+		}
+		if u.lane == -1 {
+			return 1, 0, 1, true
+		}
+		if u.lane != bad.lane {
+			return 1, 1, 1, false
+		}
+		switch {
+		case u.kind == "nested-graph" || u.name == bad.name:
+			return 1, 0, 1, true
+		case u.pos < bad.pos:
+			return 1, 1, 0, true
+		}
+		return 0, 0, 0, true
+	}
+	for _, h := range append([]hspec{{ID: "GLOBAL"}}, hs...) {
+		starts, ends, errs := map[string]int{}, map[string]int{}, map[string]int{}
+		for _, e := range evs {
+			if e.handler != h.ID {
+				continue
+			}
+			u := byName[e.name]
+			if u == nil {
+				rep.Violation(ID+"/selffire/unknown-unit/"+tail, fmt.Sprintf("handler %s: callback with run info name %q, no unit of the spec\n%s%s", h.ID, e.name, head, b.String()), wit)
+				return
+			}
+			if e.comp != u.comp {
+				rep.Violation(ID+"/selffire/run-info-component/"+u.kind, fmt.Sprintf("handler %s: callback for unit %s with run info component %q, expected %q\n%s%s", h.ID, e.name, e.comp, u.comp, head, b.String()), wit)
+				return
+			}
+			switch e.timing {
+			case "start":
+				starts[e.name]++
+			case "error":
+				errs[e.name]++
+			case "end":
+				ends[e.name]++
+			}
+		}
+		applies := func(n string) bool { return true }
+		if h.Path != nil {
+			app := below(h.Path)
+			applies = func(n string) bool { return app[n] }
+		}
+		names := make([]string, 0, len(byName))
+		for n := range byName {
+			names = append(names, n)
+		}
+		sort.Strings(names)
+		for _, n := range names {
+			u := byName[n]
+			s, e, x := starts[n], ends[n], errs[n]
+			if !applies(n) {
+				if s+e+x > 0 {
+					rep.Violation(ID+"/selffire/designated-handler-fired-for-another-unit/"+u.kind, fmt.Sprintf("handler %s designated to %v fired for unit %s\n%s%s", h.ID, h.Path, n, head, b.String()), wit)
+					return
+				}
+				continue
+			}
+			role := "other-unit"
+			switch {
+			case bad != nil && n == bad.name:
+				role = "failing-unit"
+			case bad != nil && (u.lane == -1 || u.kind == "nested-graph" && u.lane == bad.lane):
+				role = "graph-around-the-failing-unit"
+			}
+			ws, we, wx, exact := expect(u)
+			cl := ""
+			switch {
+			case s > ws:
+				cl = "started-too-often"
+			case e+x > s:
+				cl = "more-ends-than-starts"
+			case e+x < s:
+				cl = "start-without-end"
+			case exact && s < ws:
+				cl = "fired-too-rarely"
+			case exact && (e != we || x != wx):
+				cl = "wrong-kind-of-end"
+			}
+			if cl != "" {
+				want := fmt.Sprintf("expected %d start / %d end / %d error", ws, we, wx)
+				if !exact {
+					want = "expected at most one start and as many end-or-error callbacks as starts (another lane failed)"
+				}
+				rep.Violation(ID+"/selffire/"+cl+"/"+fclass+"/"+role+"/"+u.kind, fmt.Sprintf("handler %s, unit %s (%s): %d start / %d end / %d error callbacks; %s\n%s%s", h.ID, n, u.kind, s, e, x, want, head, b.String()), wit)
+				return
+			}
+			rep.Count("selffire_handler_unit_pairs_checked", 1)
+			if s > 0 {
+				rep.Count("selffire_pairs_"+u.kind, 1)
+				if role == "failing-unit" {
+					rep.Count("selffire_failing_unit_pairs_"+fclass+"_"+u.kind, 1)
+				}
+			}
+		}
+	}
+	rep.Count("selffire_runs_judged", 1)
+	rep.Count("selffire_runs_judged_"+fclass, 1)
+	if bad != nil && out.Panic != nil {
+		rep.Count("selffire_panic_reached_the_caller", 1)
+	}
+	rep.NonTrivial(fmt.Sprintf("selffire|%s|%s|%v", rlDigest(spec), para, hs))
+}
